@@ -64,7 +64,7 @@ Proof.
          Hi2 into Hbs, Hi1 into Hbok, Hi0 into Hprm, Hi into Hfee.
   assert (Hsyms : map t_sym (map snd (tokens s)) = map fst (tokens s)) by (apply key_ok_map; exact Hkey).
   assert (Hval : validate fx (export s) = true).
-  { unfold validate, export. simpl. rewrite Hprm, Hok, Hbok. simpl. destruct fx; [|reflexivity].
+  { unfold validate, export. simpl. rewrite Hprm, Hok, Hbok. simpl. destruct fx; [|reflexivity]. unfold wf. simpl.
     rewrite Hsyms, (sortedb_keys_nodupb _ Hsorted), Hmu. simpl.
     apply existsb_Zeqb_In. apply has_In_keys. exact Hfee. }
   unfold import. rewrite Hval. simpl.
@@ -84,33 +84,53 @@ Proof.
   - apply nodupb_NoDup. exact Hmu.
 Qed.
 
-Lemma token_export_validates_lemma s : invb s = true -> validate true (export s) = true.
+Lemma validate_split g : validate true g = validate false g && wf g.
+Proof. unfold validate. destruct (params_ok (g_prm g) && forallb token_ok (g_tokens g) && forallb coin_ok (g_burned g)); simpl; reflexivity. Qed.
+
+Lemma import_switch g : validate false g = true -> validate true g = true -> import false g = import true g.
+Proof. intros H1 H2. unfold import. rewrite H1, H2. reflexivity. Qed.
+
+(** the exported genesis of every reachable state validates ... *)
+Lemma token_export_validates_lemma s : invb s = true -> validate false (export s) = true.
 Proof.
-  intros Hinv. pose proof (token_roundtrip true s Hinv) as Hr. unfold import in Hr.
-  destruct (validate true (export s)); [reflexivity|discriminate].
+  intros Hinv. pose proof (token_roundtrip false s Hinv) as Hr. unfold import in Hr.
+  destruct (validate false (export s)); [reflexivity|discriminate].
 Qed.
 
+(** ... and has the well-formedness InitGenesis relies on (which ValidateGenesis does not check) *)
+Lemma token_export_wellformed_lemma s : invb s = true -> wf (export s) = true.
+Proof.
+  intros Hinv. pose proof (token_roundtrip true s Hinv) as Hr. unfold import in Hr.
+  destruct (validate true (export s)) eqn:E; [|discriminate]. rewrite validate_split in E.
+  apply andb_true_iff in E. tauto.
+Qed.
+
+(** importing the exported genesis of a reachable state does not panic *)
+Lemma token_import_total_lemma s : invb s = true -> import false (export s) <> None.
+Proof. intros Hinv. rewrite (token_roundtrip false s Hinv). discriminate. Qed.
+
 Lemma token_export_fixpoint_lemma s :
-  invb s = true -> exists s', import true (export s) = Some s' /\ export s' = export s.
+  invb s = true -> exists s', import false (export s) = Some s' /\ export s' = export s.
 Proof. intros Hinv. exists s. split; [apply token_roundtrip; exact Hinv|reflexivity]. Qed.
 
 Lemma token_queries_preserved_lemma s :
-  invb s = true -> exists s', import true (export s) = Some s' /\ queries s' = queries s.
+  invb s = true -> exists s', import false (export s) = Some s' /\ queries s' = queries s.
 Proof. intros Hinv. exists s. split; [apply token_roundtrip; exact Hinv|reflexivity]. Qed.
 
-(** ValidateGenesis does not look for duplicates, InitGenesis panics on them: two tokens with the
-    same symbol (or a fee denomination that is no token's symbol) pass validation and abort the import *)
+(** Remark (outside C12, which is about exported geneses): a hand-made genesis with a repeated symbol passes
+    ValidateGenesis and makes InitGenesis panic — the well-formedness is not validated by the code *)
 Definition wit_tok (sym mu : Z) : token := mkToken sym true 0 5 6 mu true 100 1000 true 0.
 Definition wit_prm : params := mkParams 400000000000000000 (1, 60000) 100000000000000000 true 0.
-Lemma token_import_total_refuted_lemma :
-  exists g, validate false g = true /\ import false g = None.
-Proof. exists (mkGenesis wit_prm [wit_tok 1 1; wit_tok 1 2] []). split; vm_compute; reflexivity. Qed.
+Lemma token_handmade_genesis_can_panic_lemma :
+  exists g, validate false g = true /\ wf g = false /\ import false g = None.
+Proof. exists (mkGenesis wit_prm [wit_tok 1 1; wit_tok 1 2] []). repeat split; vm_compute; reflexivity. Qed.
 
-(** the repaired validation: every validated genesis imports *)
-Lemma token_import_total_lemma g : validate true g = true -> import true g <> None.
+(** ... and any validated AND well-formed genesis imports *)
+Lemma token_import_total_wf_lemma g : validate false g = true -> wf g = true -> import false g <> None.
 Proof.
-  intros Hv. unfold import. rewrite Hv. simpl.
-  unfold validate in Hv. split_andb Hv. clear Hi1 Hi0. split_andb Hi. rename Hi into Hs, Hi1 into Hm, Hi0 into Hf.
+  intros Hv Hw. assert (Hvt : validate true g = true) by (rewrite validate_split, Hv, Hw; reflexivity).
+  rewrite (import_switch g Hv Hvt). unfold import. rewrite Hvt. simpl.
+  unfold wf in Hw. split_andb Hw. rename Hw into Hs, Hi0 into Hm, Hi into Hf.
   rewrite add_tokens_ok; [|intros t _ []|apply nodupb_NoDup; exact Hs|intros t _ []|apply nodupb_NoDup; exact Hm].
   assert (Hhas : has (fst (p_fee (g_prm g))) (fold_left ins_t (g_tokens g) []) = true).
   { assert (Hgen : forall l acc k, (In k (map t_sym l) \/ has k acc = true) -> has k (fold_left ins_t l acc) = true).
